@@ -84,9 +84,9 @@ var c12Aggs = []string{"day", "week", "month", "quarter", "year"}
 func c12Count(tier fw.Tier) []int {
 	n := len(c12Dates())
 	if tier == fw.Thorough {
-		return []int{n * n, n * n * n, 40}
+		return []int{n * n, n * n * n, 80}
 	}
-	return []int{n * n, 0, 40}
+	return []int{n * n, 0, 80}
 }
 
 func init() {
@@ -95,7 +95,7 @@ func init() {
 		Title: "All evaluation views partition the same total",
 		Rule: "files of 2 (quick: all ordered pairs) and 3 (thorough: all ordered triples) records dated from a 59-date calendar-boundary set (week-year edges of 52/53-week years, leap days, month/quarter/year ends, years 0000/0001/0999/1000/9998/9999), " +
 			"in file order as enumerated (unsorted, descending and duplicate dates occur); record i carries a total of 2^i minutes (so a row total identifies exactly which records it contains), a should-total and, in a variant, a negative total; " +
-			"x aggregation {day, week, month, quarter, year} x {plain, --fill (span <= 800 days), --diff, --fill --diff} x date filter {none, --since/--until, --period}; plus 40 today/--now documents. " +
+			"x aggregation {day, week, month, quarter, year} x {plain, --fill (span <= 800 days), --diff, --fill --diff} x date filter {none, --since/--until, --period}; plus 80 today/--now documents. " +
 			"A case = (file, report flags); non-trivial = at least one row; distinct by hash(text, flags).",
 		Assumptions: []string{
 			"independent bucketing by the specmodel calendar; rows are read back from `klog report --decimal --no-style` by fixed label columns (year, month, weekday/day, week, quarter) and by the '=' ruler for value columns",
@@ -593,9 +593,11 @@ func c12Today(c *fw.Ctx, i int) {
 	}
 	hasToday, hasYesterday := layout&1 == 1, layout&2 == 2
 	openToday := layout&4 == 4
+	// with a record for today, yesterday's record may still carry an open range of its own (it then counts as "other")
+	openYesterdayToo := hasToday && hasYesterday && (i/8)%2 == 1
 	add(-40, 64, false, 2)
 	if hasYesterday {
-		add(-1, 2, !hasToday && openToday, 1)
+		add(-1, 2, (!hasToday && openToday) || openYesterdayToo, 1)
 	}
 	if hasToday {
 		add(0, 1, openToday, 0)
@@ -628,10 +630,14 @@ func c12Today(c *fw.Ctx, i int) {
 			}
 		}
 		cur, other, label := 0, 0, "Today"
+		extraOther := 0
+		if now && openYesterdayToo {
+			extraOther = 90 + 1440 // yesterday 6:00 -> today 7:30
+		}
 		switch {
 		case hasToday:
 			cur = totals[0] + extra
-			other = totals[1] + totals[2] + totals[3]
+			other = totals[1] + totals[2] + totals[3] + extraOther
 		case hasYesterday:
 			cur = totals[1] + extra
 			other = totals[2] + totals[3]
